@@ -228,6 +228,16 @@ class Cache:
         ):
             return f"`{node.__class__.__name__.lower()}` after `slice_head`"
 
+        if (
+            isinstance(node, verbs.Mutate)
+            and self.limit != 0
+            and any(
+                isinstance(fn, ColFn) and fn.op.ftype in (Ftype.AGGREGATE, Ftype.WINDOW) for fn in node.iter_col_nodes()
+            )
+        ):
+            # window functions are evaluated before LIMIT in SQL
+            return "window / aggregation function in `mutate` after `slice_head`"
+
         if isinstance(node, verbs.Mutate) and any(
             any(
                 col.ftype(agg_is_window=True) in (Ftype.WINDOW, Ftype.AGGREGATE)
